@@ -155,6 +155,31 @@ type c13Case struct {
 	x       []int64   // bgv: values mod t; ckks: numerators over 4 (x = v/4 in [-1,1])
 	polys   [][]int64 // integer coefficients
 	mapping [][]int   // nil = single polynomial
+	// extensions (zero values = the plain Evaluate of a constructor-built polynomial)
+	inv      bool     // bgv.Evaluator.ScaleInvariant (BFV-style)
+	flagsSet bool     // IsOdd/IsEven set by the user to (odd, even)
+	odd      bool
+	even     bool
+	truthful bool     // the flags describe the coefficients (odd flag only: even coefficients are 0, …)
+	pre      []c13Pre // non-nil: EvaluateFromPowerBasis on a basis filled by these steps
+}
+
+// c13Pre: one step of filling a PowerBasis before EvaluateFromPowerBasis
+type c13Pre struct {
+	n     int
+	lazy  bool   // gen: GenPower(n, lazy)
+	fresh bool   // pb.Value[n] = fresh encryption of x^n at (level, scale)
+	level int
+	scale uint64
+}
+
+func (cs *c13Case) hasFresh() bool {
+	for _, p := range cs.pre {
+		if p.fresh {
+			return true
+		}
+	}
+	return false
 }
 
 func (x *c13Ctx) describe(cs *c13Case) string {
@@ -183,6 +208,29 @@ func (x *c13Ctx) describe(cs *c13Case) string {
 			parts[i] = IVec(cs.mapping[i])
 		}
 		sb.WriteString(" map=" + strings.Join(parts, "|"))
+	}
+	if cs.inv {
+		sb.WriteString(" inv=1")
+	}
+	if cs.flagsSet {
+		fmt.Fprintf(&sb, " odd=%d even=%d", b2i(cs.odd), b2i(cs.even))
+	}
+	if cs.pre != nil {
+		parts := []string{}
+		for _, p := range cs.pre {
+			if p.fresh {
+				parts = append(parts, fmt.Sprintf("f%d:%d:%d", p.n, p.level, p.scale))
+			} else if p.lazy {
+				parts = append(parts, fmt.Sprintf("g%dl", p.n))
+			} else {
+				parts = append(parts, fmt.Sprintf("g%d", p.n))
+			}
+		}
+		if len(parts) == 0 {
+			sb.WriteString(" pre=-")
+		} else {
+			sb.WriteString(" pre=" + strings.Join(parts, ","))
+		}
 	}
 	for _, p := range cs.polys {
 		sb.WriteString(" P " + c12I64(p))
@@ -252,8 +300,85 @@ func (x *c13Ctx) runCase(c *Ctx, cs *c13Case) {
 		for i := range p {
 			f[i] = float64(p[i])
 		}
-		return bignum.NewPolynomial(basis, f, [2]float64{-1, 1})
+		bp := bignum.NewPolynomial(basis, f, [2]float64{-1, 1})
+		if cs.flagsSet {
+			bp.IsOdd, bp.IsEven = cs.odd, cs.even
+		}
+		return bp
 	}
+	// the polynomial argument of Evaluate
+	mkPol := func() (interface{}, bool) {
+		if cs.mapping == nil {
+			p := cpoly.NewPolynomial(mk(cs.polys[0]))
+			p.Lazy = cs.lazy
+			return p, true
+		}
+		ps := make([]bignum.Polynomial, len(cs.polys))
+		for i := range ps {
+			ps[i] = mk(cs.polys[i])
+		}
+		m := map[int][]int{}
+		for i := range cs.mapping {
+			m[i] = cs.mapping[i]
+		}
+		pv, e := cpoly.NewPolynomialVector(ps, m)
+		if e != nil {
+			return nil, false
+		}
+		for i := range pv.Value {
+			pv.Value[i].Lazy = cs.lazy
+		}
+		return pv, true
+	}
+	// fills a PowerBasis as cs.pre says (with the real evaluator, outside the logged trace);
+	// ok = false: a step failed (the case is then not a case of EvaluateFromPowerBasis)
+	prefill := func(ct *rlwe.Ciphertext, ev schemes.Evaluator) (pb cpoly.PowerBasis, ok bool) {
+		pb = cpoly.NewPowerBasis(ct, basis)
+		for _, p := range cs.pre {
+			if !p.fresh {
+				if err := pb.GenPower(p.n, p.lazy, ev); err != nil {
+					return pb, false
+				}
+				continue
+			}
+			if x.scheme == "bgv" {
+				v := make([]int64, len(cs.x))
+				for i := range v {
+					r := int64(1)
+					for k := 0; k < p.n; k++ {
+						r = r * cs.x[i] % int64(x.t)
+					}
+					v[i] = r
+				}
+				pt := bgv.NewPlaintext(x.bp, p.level)
+				pt.Scale = x.bp.NewScale(p.scale)
+				if err := x.becd.Encode(v, pt); err != nil {
+					panic(err)
+				}
+				c2, err := x.enc.EncryptNew(pt)
+				if err != nil {
+					panic(err)
+				}
+				pb.Value[p.n] = c2
+			} else {
+				z := make([]float64, x.slots)
+				for i := range z {
+					z[i] = math.Pow(float64(cs.x[i])/4, float64(p.n))
+				}
+				pt := ckks.NewPlaintext(x.cp, p.level)
+				if err := x.cecd.Encode(z, pt); err != nil {
+					panic(err)
+				}
+				c2, err := x.enc.EncryptNew(pt)
+				if err != nil {
+					panic(err)
+				}
+				pb.Value[p.n] = c2
+			}
+		}
+		return pb, true
+	}
+	prefillFailed := false
 	var tr []string
 	var out *rlwe.Ciphertext
 	var inScale rlwe.Scale
@@ -273,37 +398,29 @@ func (x *c13Ctx) runCase(c *Ctx, cs *c13Case) {
 			inScale = ct.Scale
 			target = x.bp.NewScale(cs.tscale)
 			pe := x.sbgv
+			var real *bgv.Evaluator
 			if pe != nil {
 				x.slog.tr = &tr
+				real = x.slog.Evaluator.(*bgv.Evaluator)
 			} else {
-				real := bgv.NewEvaluator(x.bp, x.evk)
+				real = bgv.NewEvaluator(x.bp, x.evk, cs.inv)
 				pe = bgvpoly.NewEvaluator(x.bp, real)
 				pe.Evaluator.Evaluator = &c13LogEval{Evaluator: real, tr: &tr, bgv: true}
 			}
-			var pol interface{}
-			if cs.mapping == nil {
-				p := cpoly.NewPolynomial(mk(cs.polys[0]))
-				p.Lazy = cs.lazy
-				pol = p
-			} else {
-				ps := make([]bignum.Polynomial, len(cs.polys))
-				for i := range ps {
-					ps[i] = mk(cs.polys[i])
-				}
-				m := map[int][]int{}
-				for i := range cs.mapping {
-					m[i] = cs.mapping[i]
-				}
-				pv, e := cpoly.NewPolynomialVector(ps, m)
-				if e != nil {
+			pol, ok := mkPol()
+			if !ok {
+				return "err"
+			}
+			if cs.pre != nil {
+				pb, ok := prefill(ct, real)
+				if !ok {
+					prefillFailed = true
 					return "err"
 				}
-				for i := range pv.Value {
-					pv.Value[i].Lazy = cs.lazy
-				}
-				pol = pv
+				out, err = pe.EvaluateFromPowerBasis(pb, pol, target)
+			} else {
+				out, err = pe.Evaluate(ct, pol, target)
 			}
-			out, err = pe.Evaluate(ct, pol, target)
 		} else {
 			pt := ckks.NewPlaintext(x.cp, cs.level)
 			z := make([]float64, x.slots)
@@ -320,37 +437,29 @@ func (x *c13Ctx) runCase(c *Ctx, cs *c13Case) {
 			inScale = ct.Scale
 			target = x.cp.DefaultScale()
 			pe := x.sckks
+			var real *ckks.Evaluator
 			if pe != nil {
 				x.slog.tr = &tr
+				real = x.slog.Evaluator.(*ckks.Evaluator)
 			} else {
-				real := ckks.NewEvaluator(x.cp, x.evk)
+				real = ckks.NewEvaluator(x.cp, x.evk)
 				pe = ckkspoly.NewEvaluator(x.cp, real)
 				pe.Evaluator.Evaluator = &c13LogEval{Evaluator: real, tr: &tr, bgv: false}
 			}
-			var pol interface{}
-			if cs.mapping == nil {
-				p := cpoly.NewPolynomial(mk(cs.polys[0]))
-				p.Lazy = cs.lazy
-				pol = p
-			} else {
-				ps := make([]bignum.Polynomial, len(cs.polys))
-				for i := range ps {
-					ps[i] = mk(cs.polys[i])
-				}
-				m := map[int][]int{}
-				for i := range cs.mapping {
-					m[i] = cs.mapping[i]
-				}
-				pv, e := cpoly.NewPolynomialVector(ps, m)
-				if e != nil {
+			pol, ok := mkPol()
+			if !ok {
+				return "err"
+			}
+			if cs.pre != nil {
+				pb, ok := prefill(ct, real)
+				if !ok {
+					prefillFailed = true
 					return "err"
 				}
-				for i := range pv.Value {
-					pv.Value[i].Lazy = cs.lazy
-				}
-				pol = pv
+				out, err = pe.EvaluateFromPowerBasis(pb, pol, target)
+			} else {
+				out, err = pe.Evaluate(ct, pol, target)
 			}
-			out, err = pe.Evaluate(ct, pol, target)
 		}
 		if err != nil {
 			return "err"
@@ -358,6 +467,13 @@ func (x *c13Ctx) runCase(c *Ctx, cs *c13Case) {
 		return "ok"
 	})
 	_ = inScale
+	if prefillFailed {
+		c.Count("prefill-failed")
+		return
+	}
+	// spec = the decrypted result is supposed to be p(x): constructor flags or flags that describe the
+	// coefficients, and a basis holding what GenPower puts there
+	spec := !(cs.flagsSet && !cs.truthful) && !cs.hasFresh()
 	trs := "-"
 	if len(tr) > 0 {
 		trs = strings.Join(tr, ";")
@@ -371,6 +487,14 @@ func (x *c13Ctx) runCase(c *Ctx, cs *c13Case) {
 	c.Count(fmt.Sprintf("deg:%d", deg))
 	line := fmt.Sprintf("tr=%s st=%s", trs, status)
 	tag := fmt.Sprintf("%s logN=%d deg=%d cheb=%d lvl=%d", x.scheme, x.logN, deg, b2i(cs.cheb), cs.level)
+	if cs.inv || cs.flagsSet || cs.pre != nil {
+		tag += fmt.Sprintf(" inv=%d flags=%d%d%d pre=%d", b2i(cs.inv), b2i(cs.flagsSet), b2i(cs.odd), b2i(cs.even), len(cs.pre))
+		c.Count(fmt.Sprintf("ext:inv=%d:flags=%d%d%d:pre=%v:%s", b2i(cs.inv), b2i(cs.flagsSet), b2i(cs.odd), b2i(cs.even), cs.pre != nil, status))
+	}
+	consumed := need
+	if cs.inv {
+		consumed = 0 // scale-invariant mode: no level is consumed
+	}
 	if status == "ok" {
 		if x.scheme == "bgv" {
 			u := make([]uint64, x.slots)
@@ -390,18 +514,28 @@ func (x *c13Ctx) runCase(c *Ctx, cs *c13Case) {
 				}
 			}
 			vs := c12I64(got)
-			if bad != "" {
+			if bad != "" && spec {
 				// the tie is on "is the result the specified one": the model predicts exactly when it is not
 				vs = "wrong"
 				c.Count("eval:wrong-result")
 			}
 			line += fmt.Sprintf(" lvl=%d scale=%d vals=%s ps=%s", out.Level(), out.Scale.Uint64(), vs, vs)
-			c.Probe("value_bgv", tag, "C13-value-wrong", bad)
-			d := ""
-			if out.Scale.Cmp(target) != 0 {
-				d = fmt.Sprintf("scale %d != target %d: %s", out.Scale.Uint64(), cs.tscale, desc)
+			if spec {
+				c.Probe("value_bgv", tag, "C13-value-wrong", bad)
+				d := ""
+				if out.Scale.Cmp(target) != 0 {
+					d = fmt.Sprintf("scale %d != target %d: %s", out.Scale.Uint64(), cs.tscale, desc)
+				}
+				c.Probe("scale_target", tag, "C13-target-scale", d)
+			} else {
+				// outside the specification (flags that do not describe the coefficients, IsOdd = IsEven = false,
+				// a basis entry that GenPower did not produce): the decrypted values are tied to the model only
+				if bad != "" {
+					c.Count("nonspec:value-differs-from-p(x)")
+				} else {
+					c.Count("nonspec:value-is-p(x)")
+				}
 			}
-			c.Probe("scale_target", tag, "C13-target-scale", d)
 		} else {
 			z := make([]float64, x.slots)
 			if err := x.cecd.Decode(x.dec.DecryptNew(out), z); err != nil {
@@ -443,11 +577,13 @@ func (x *c13Ctx) runCase(c *Ctx, cs *c13Case) {
 			}
 			c.Probe("scale_target", tag, "C13-target-scale", d)
 		}
-		d := ""
-		if out.Level() != cs.level-need {
-			d = fmt.Sprintf("out level %d, in %d, documented consumption %d: %s", out.Level(), cs.level, need, desc)
+		if !cs.hasFresh() {
+			d := ""
+			if out.Level() != cs.level-consumed {
+				d = fmt.Sprintf("out level %d, in %d, documented consumption %d: %s", out.Level(), cs.level, consumed, desc)
+			}
+			c.Probe("level_doc", tag, "C13-level-consumption", d)
 		}
-		c.Probe("level_doc", tag, "C13-level-consumption", d)
 	}
 	if deg == 0 {
 		// degree 0 is within the property's quantifier: a constant polynomial must evaluate (or be refused), not panic
@@ -457,7 +593,12 @@ func (x *c13Ctx) runCase(c *Ctx, cs *c13Case) {
 		}
 		c.Probe("degree0_no_panic", tag, "C13-degree0-panic", d)
 	}
-	if cs.level < need {
+	if cs.inv && cs.level < need && status == "err" {
+		// observation (tied, not probed): the scale-invariant mode consumes no level, yet Evaluate refuses
+		// an input below Depth() = ceil(log2(deg)) levels
+		c.Count("bfv:refused-below-depth-though-no-level-is-consumed")
+	}
+	if cs.level < consumed {
 		// an input with too few levels must be refused with an error
 		d := ""
 		if status != "err" {
@@ -588,8 +729,127 @@ func genC13(c *Ctx) {
 				}
 			}
 			c13Sequences(c, x)
+			c13Extensions(c, x)
 			if scheme == "ckks" {
 				c13SparseChebyshev(c, x)
+			}
+		}
+	}
+}
+
+// c13Extensions: (1) IsOdd/IsEven set by the user — every combination, with coefficients the flags
+// describe ("truthful", value probed) and coefficients they do not (tied only); (2) EvaluateFromPowerBasis on a
+// basis the caller filled: nothing but X, some powers (by GenPower, lazily or not), all powers, and
+// entries GenPower did not produce (fresh encryptions of x^n at another level/scale: tied only);
+// (3) bgv in the scale-invariant (BFV) mode: no level consumed.  Combinations of the three as well.
+func c13Extensions(c *Ctx, x *c13Ctx) {
+	L := x.rp.MaxLevel()
+	maxDeg := c.Scale(24, 63)
+	type fl struct{ set, odd, even bool }
+	flagSets := []fl{{false, true, true}, {true, true, false}, {true, false, true}, {true, false, false}, {true, true, true}}
+	for deg := 1; deg <= maxDeg; deg++ {
+		if !c.Thorough() && deg > 9 && deg%3 != 0 && deg&(deg+1) != 0 && deg&(deg-1) != 0 {
+			continue
+		}
+		need := int(math.Ceil(math.Log2(float64(deg + 1))))
+		if need > L {
+			continue
+		}
+		invs := []bool{false}
+		if x.scheme == "bgv" {
+			invs = []bool{false, true}
+		}
+		for _, inv := range invs {
+			for fi, f := range flagSets {
+				if x.scheme == "ckks" && f.set && !f.odd && !f.even {
+					continue // values are tied for bgv only
+				}
+				for variant := 0; variant < 3; variant++ {
+					// variant 0: Evaluate; 1: EvaluateFromPowerBasis, GenPower-filled; 2: with a foreign entry
+					if variant == 0 && !inv && !f.set {
+						continue // the plain case is genC13's
+					}
+					if variant == 2 && (x.scheme == "ckks" || deg < 2) {
+						continue
+					}
+					if !c.Thorough() && variant > 0 && (fi+deg+variant)%2 == 0 {
+						continue
+					}
+					truthful := true
+					shape := 0
+					switch {
+					case f.set && f.odd && !f.even:
+						shape = 1
+					case f.set && !f.odd && f.even:
+						shape = 2
+					case f.set && !f.odd && !f.even:
+						truthful = false
+					}
+					if f.set && f.odd != f.even && x.scheme == "bgv" && c.rng.Intn(3) == 0 {
+						shape, truthful = 0, false // flags that do not describe the coefficients
+					}
+					bases := []bool{false}
+					if x.scheme == "ckks" {
+						bases = []bool{false, true}
+					}
+					for _, cheb := range bases {
+						lvl := need + c.rng.Intn(L-need+1)
+						if inv && c.rng.Intn(3) == 0 {
+							lvl = c.rng.Intn(L + 1) // also below Depth(): no level is needed
+						}
+						if !inv && c.rng.Intn(8) == 0 && need > 0 {
+							lvl = need - 1
+						}
+						cs := &c13Case{cheb: cheb, lazy: c.rng.Intn(2) == 0, level: lvl, scale: x.sc(c), tscale: x.sc(c), x: x.randX(c),
+							inv: inv, flagsSet: f.set, odd: f.odd, even: f.even, truthful: truthful}
+						cs.polys = [][]int64{x.randPoly(c, deg, shape)}
+						if variant > 0 {
+							cs.pre = []c13Pre{}
+							logDeg := bits.Len64(uint64(deg))
+							split := 1 << bignum.OptimalSplit(logDeg)
+							switch c.rng.Intn(4) {
+							case 0: // nothing but X
+							case 1: // some powers
+								for k := 0; k < 1+c.rng.Intn(3); k++ {
+									n := 2 + c.rng.Intn(1<<logDeg)
+									cs.pre = append(cs.pre, c13Pre{n: n, lazy: c.rng.Intn(2) == 0})
+								}
+							case 2: // exactly what Evaluate would generate, in its order
+								cs.pre = append(cs.pre, c13Pre{n: 1 << (logDeg - 1)})
+								for i := split - 1; i > 2; i-- {
+									cs.pre = append(cs.pre, c13Pre{n: i, lazy: cs.lazy})
+								}
+							default: // every power up to 2^logDeg, ascending, not lazy
+								for n := 2; n <= 1<<logDeg; n++ {
+									cs.pre = append(cs.pre, c13Pre{n: n})
+								}
+							}
+							if variant == 2 {
+								// a fresh encryption of x^n in place of / in addition to the generated powers
+								n := 2 + c.rng.Intn(split)
+								fl := c.rng.Intn(lvl + 1)
+								if inv {
+									// no rescaling in the scale-invariant mode: the noise of the products is absolute, a
+									// result truncated to a much lower level does not decrypt
+									fl = lvl
+								}
+								cs.pre = append(cs.pre, c13Pre{n: n, fresh: true, level: fl, scale: x.sc(c)})
+							}
+						}
+						if deg%5 == 2 && variant < 2 && !cheb {
+							// a vector of polynomials under a partial slot mapping
+							np := 2
+							cs.mapping = make([][]int, np)
+							for j := 0; j < x.slots; j++ {
+								if k := c.rng.Intn(np + 1); k < np {
+									cs.mapping[k] = append(cs.mapping[k], j)
+								}
+							}
+							cs.polys = append(cs.polys, x.randPoly(c, deg, shape))
+						}
+						x.runCase(c, cs)
+					}
+				}
 			}
 		}
 	}
